@@ -381,15 +381,21 @@ pub fn pre_epoch_checks() -> Vec<String> {
     let mut fails = vec![];
     for (secs, sub) in [(0u64, 1u32), (0, 750_000_000), (31_536_000, 250_000_000), (86_400 * 365 * 300, 0)] {
         for method in ["GET", "HEAD"] {
-            for hdrs in [
-                vec![],
-                vec![("if-modified-since", "Thu, 01 Jan 1970 00:00:00 GMT")],
-                vec![("if-unmodified-since", "Thu, 01 Jan 1970 00:00:00 GMT")],
-                vec![("if-modified-since", "Sun, 06 Nov 1994 08:49:37 GMT")],
-                vec![("range", "bytes=1-3")],
-                vec![("range", "bytes=1-3"), ("if-range", "Thu, 01 Jan 1970 00:00:00 GMT")],
-                vec![("range", "bytes=1-3, 5-6")],
-                vec![("range", "bytes=500-")],
+            // (headers, the status C04 / C03 prescribe: the real time -- before the epoch -- is compared, so any
+            //  HTTP date is later than it; 0 = not asserted)
+            for (hdrs, want) in [
+                (vec![], 200u16),
+                (vec![("if-modified-since", "Thu, 01 Jan 1970 00:00:00 GMT")], 304),
+                (vec![("if-unmodified-since", "Thu, 01 Jan 1970 00:00:00 GMT")], 200),
+                (vec![("if-modified-since", "Sun, 06 Nov 1994 08:49:37 GMT")], 304),
+                (vec![("if-unmodified-since", "Sun, 06 Nov 1994 08:49:37 GMT")], 200),
+                (vec![("if-modified-since", "Thu, 01 Jan 1970 00:00:01 GMT"), ("if-unmodified-since", "Thu, 01 Jan 1970 00:00:01 GMT")], 304),
+                (vec![("if-none-match", "\"xyz\""), ("if-modified-since", "Thu, 01 Jan 1970 00:00:00 GMT")], 200),
+                (vec![("if-match", "\"abc\""), ("if-unmodified-since", "Thu, 01 Jan 1970 00:00:00 GMT")], 200),
+                (vec![("range", "bytes=1-3")], 206),
+                (vec![("range", "bytes=1-3"), ("if-range", "Thu, 01 Jan 1970 00:00:00 GMT")], 200),
+                (vec![("range", "bytes=1-3, 5-6")], 0),
+                (vec![("range", "bytes=500-")], 416),
             ] {
                 let cfg = EntityCfg {
                     len: 100, etag: Some(b"\"abc\"".to_vec()), mtime_ns: Some(secs as u128 * 1_000_000_000 + sub as u128),
@@ -408,6 +414,9 @@ pub fn pre_epoch_checks() -> Vec<String> {
                         let st = resp.status().as_u16();
                         if ![200u16, 206, 304, 412, 416].contains(&st) {
                             fails.push(format!("unexpected-status-for-an-entity-dated-before-1970({} {})", st, tag.replace(',', ";")));
+                        }
+                        if want != 0 && st != want {
+                            fails.push(format!("status-{}-instead-of-{}-for-an-entity-dated-before-1970({})", st, want, tag.replace(',', ";")));
                         }
                         let date = resp.headers().get("date").and_then(|v| v.to_str().ok()).and_then(|s| httpdate::parse_http_date(s).ok());
                         let lm = resp.headers().get("last-modified").and_then(|v| v.to_str().ok()).and_then(|s| httpdate::parse_http_date(s).ok());
